@@ -404,7 +404,7 @@ impl<'l, F: AsFd> Async<'l, F> {
         Ok(was_nonblocking)
 //@ endslice
 
-//@ slice src/io.rs / impl Async<'l, F> / fn new :: stmts <<let mut sources = inner.sources.borrow_mut();>> .. <<dispatcher.borrow_mut().token = Some(Token { inner: slot.token });>> props=C01,C06,C17 name=Async::new::slot_step
+//@ slice src/io.rs / impl Async<'l, F> / fn new :: stmts <<let mut sources = inner.sources.borrow_mut();>> .. <<dispatcher.borrow_mut().token =>> props=C01,C06,C17 name=Async::new::slot_step
 //@ rw R10 * <<inner.sources.borrow_mut()>> => <<sources_cell>>
 //@ rw R10 * <<dispatcher.borrow_mut()>> => <<disp_cell>>
 //@ rw R15 1 <<Some(dispatcher.clone())>> => <<Some(unsize_io_dispatcher::<Data>(dispatcher.clone()))>>
